@@ -263,8 +263,17 @@ class ScriptTree(Bounded):
     properties = ('C19', 'C08')
     reason = 'exec() of script text, context managers and the whole builtin layer: runtime contract only'
 
+    INPUT_BUILTINS = {
+        # builtin -> script text producing the list `ins` of input file objects named by plain strings in the script
+        'source-list': "t = executable('prog', files=['in.c'])\nins = [t.creator.files[0].creator.file]",
+        'copy_file': "t = copy_file('in.txt')\nins = [t.creator.file]",
+        'includes': "t = object_file(file='in.c', includes=['inc'])\nins = [t.creator.includes[0]]",
+        'extra_deps-of-a-library': "t = static_library('lb', files=['in.c'], extra_deps=['in.txt'])\nins = list(t.creator.extra_deps)",
+        'extra_deps-of-a-step': "t = build_step('gen2.txt', cmd=['touch', 'gen2.txt'], extra_deps=['in.txt'])\nins = list(t.creator.extra_deps)",
+    }
+
     def cases(self):
-        return ['build', 'options', 'outputs']
+        return ['build', 'options', 'outputs', 'inputs']
 
     def case_in_property(self, case, pid):
         return case == 'build' if pid == 'C08' else True
@@ -272,6 +281,11 @@ class ScriptTree(Bounded):
     def native_inputs(self, case, alphabet, maxlen, rng, extra=0):
         if case == 'outputs':
             for b in OUTPUT_BUILTINS:
+                for d in ('a', 'a/b'):
+                    yield {'builtin': b, 'dir': d}
+            return
+        if case == 'inputs':
+            for b in self.INPUT_BUILTINS:
                 for d in ('a', 'a/b'):
                     yield {'builtin': b, 'dir': d}
             return
@@ -316,6 +330,8 @@ class ScriptTree(Bounded):
     def native_check(self, case, raw):
         if case == 'outputs':
             return self.check_outputs(case, raw)
+        if case == 'inputs':
+            return self.check_inputs(case, raw)
         tree = raw.get('spec') or TREES[raw['tree']]
         fname = 'build.bfg' if case == 'build' else 'options.bfg'
         files = {}
@@ -398,6 +414,30 @@ class ScriptTree(Bounded):
         if not out or any(o[2] != 'Root.builddir' or not o[1].startswith(d + '/') for o in out):
             return self.fail(case, raw, 'output_path_in_the_matching_build_subdirectory', got=out)
         return True
+
+
+def _check_inputs(self, case, raw):
+    b, d = raw['builtin'], raw['dir']
+    files = {}
+    parts = d.split('/')
+    for i in range(len(parts)):
+        here = '/'.join(parts[:i])
+        files[(here + '/' if here else '') + 'build.bfg'] = 'submodule(%r)\n' % parts[i]
+    files[d + '/in.txt'] = ''
+    files[d + '/in.c'] = 'int main() { return 0; }\n'
+    files[d + '/inc/h.h'] = ''
+    files[d + '/build.bfg'] = (ScriptTree.INPUT_BUILTINS[b] + '\n' +
+                               'for o in ins:\n    env.trace.append(("in", o.path.suffix, str(o.path.root)))\n')
+    trace = run_configure(files, [])
+    if any(t[0] == 'FAILED' for t in trace):
+        return self.fail(case, raw, 'configure_succeeds', error=[t[1] for t in trace if t[0] == 'FAILED'][0][-600:])
+    ins = [t for t in trace if t[0] == 'in']
+    if not ins or any(o[2] != 'Root.srcdir' or not (o[1] + '/').startswith(d + '/') for o in ins):
+        return self.fail(case, raw, 'input_path_relative_to_the_submodule_source_directory', got=ins)
+    return True
+
+
+ScriptTree.check_inputs = _check_inputs
 
 
 def registry():
